@@ -8,6 +8,9 @@ mod rt;
 mod threaded;
 
 fn main() {
+    if std::env::var("H_RESET_WAKERS").map(|v| v == "shared").unwrap_or(false) {
+        rt::SHARED_DATA.store(true, std::sync::atomic::Ordering::Relaxed);
+    }
     vrt::quiet_panics();
     let args: Vec<String> = env::args().collect();
     match args.get(1).map(String::as_str) {
